@@ -484,7 +484,7 @@ static void build_pool() {
 // ---- conflict discovery: every TLD label is looked up once, alone, in a simulated process of its own, and the bytes of library
 // static storage the look-up wrote (or touched atomically) are recorded; labels sharing such bytes form the pairs that the
 // "conflict" plans explore.  Deterministic for a given build; empty on a tree that keeps no such storage.
-static vector<std::pair<string, string>> g_conf; static bool g_conf_done = false; static size_t g_conf_labels_writing = 0, g_conf_locations = 0;
+static vector<std::pair<string, string>> g_conf, g_conf_addr; static bool g_conf_done = false; static size_t g_conf_labels_writing = 0, g_conf_locations = 0;
 static void discover_conflicts() {
     if (g_conf_done) return;
     g_conf_done = true;
@@ -500,6 +500,33 @@ static void discover_conflicts() {
             for (uint64_t a : r) by_addr[a >> 3].push_back(i);          // word granularity
         };
         rt::on_fresh_thread([](void *q) { (*(std::function<void()> *)q)(); }, &f);
+    }
+    // second family: whole addresses through eav_is_email (mode 6531, TLD check on) - caches keyed by the address or its domain
+    {
+        std::map<uint64_t, vector<int>> by2; vector<string> keys;
+        for (size_t i = 0; i < g_pool.size() && keys.size() < 1500; i++) if (g_pool[i].size() < 300 && g_pool[i].find('@') != string::npos) keys.push_back(g_pool[i]);
+        for (size_t i = 0; i < keys.size(); i++) {
+            std::function<void()> f = [&]() {
+                rt::reset_library_globals(); rt::begin_sequential();
+                eav_t e; memset(&e, 0xa5, sizeof e);
+                rt::enter_sut(); eav_init(&e); e.rfc = EAV_RFC_6531; int ok = eav_setup(&e); rt::leave_sut();
+                rt::record_static_accesses(true);
+                if (ok == 0) { rt::enter_sut(); (void)eav_is_email(&e, keys[i].c_str(), keys[i].size()); rt::leave_sut(); }
+                vector<uint64_t> r = rt::take_recorded(); rt::record_static_accesses(false);
+                rt::enter_sut(); eav_free(&e); rt::leave_sut();
+                rt::end_sequential();
+                for (uint64_t a : r) by2[a >> 3].push_back((int)i);
+            };
+            rt::on_fresh_thread([](void *q) { (*(std::function<void()> *)q)(); }, &f);
+        }
+        std::set<std::pair<int, int>> seen2;
+        for (auto &kv : by2) {
+            vector<int> v = kv.second; std::sort(v.begin(), v.end()); v.erase(std::unique(v.begin(), v.end()), v.end());
+            if (v.size() < 2 || v.size() > 24) continue;
+            g_conf_locations++;
+            for (size_t x = 0; x < v.size() && g_conf_addr.size() < 32; x++) for (size_t y = x + 1; y < v.size() && g_conf_addr.size() < 32; y++)
+                if (seen2.insert({ v[x], v[y] }).second) g_conf_addr.push_back({ keys[v[x]], keys[v[y]] });
+        }
     }
     std::set<std::pair<int, int>> seen; vector<std::pair<int, std::pair<int, int>>> ranked;
     for (auto &kv : by_addr) {
@@ -532,14 +559,24 @@ static Plan gen_plan(const string &cfg, uint64_t seed, long long index) {
         // the first one up once, every schedule with at most two preemptions among the first 32 scheduling points
         discover_conflicts();
         p.nthreads = 2; p.locale = "C";
-        if (g_conf.empty()) { p.nthreads = 1; Op o; o.t = 0; o.k = TLD; o.a = "u@x.com"; p.ops.push_back(o); p.policy = 2; return p; }
-        const long SMAX = 32, NSCHED = 1 + SMAX + SMAX * (SMAX - 1) / 2, P = (long)g_conf.size();
-        long k = (long)(index % (P * 4 * NSCHED)); long pair = k % P; k /= P; int first = (int)(k % 2); k /= 2; int role = (int)(k % 2); long sched = k / 2;
-        string A = role ? g_conf[pair].second : g_conf[pair].first, B = role ? g_conf[pair].first : g_conf[pair].second;
+        if (g_conf.empty() && g_conf_addr.empty()) { p.nthreads = 1; Op o; o.t = 0; o.k = TLD; o.a = "u@x.com"; p.ops.push_back(o); p.policy = 2; return p; }
+        const long P1 = (long)g_conf.size(), P = P1 + (long)g_conf_addr.size();
+        long pair = (long)(index % P); bool addr = pair >= P1;
+        const long SMAX = addr ? 64 : 32, NSCHED = 1 + SMAX + SMAX * (SMAX - 1) / 2;
+        long k = (long)((index / P) % (4 * NSCHED)); int first = (int)(k % 2); k /= 2; int role = (int)(k % 2); long sched = k / 2;
+        const std::pair<string, string> &pr = addr ? g_conf_addr[(size_t)(pair - P1)] : g_conf[(size_t)pair];
+        string A = role ? pr.second : pr.first, B = role ? pr.first : pr.second;
+        if (addr) {     // whole addresses: the main thread sets both objects up and validates A once; then one worker per address
+            for (int t = 0; t < 2; t++) { Op r; r.t = t; r.k = SET_RFC; r.v = 3; r.ph = 1; p.ops.push_back(r); Op u; u.t = t; u.k = SETUP; u.ph = 1; p.ops.push_back(u); if (t == 0) { Op w0; w0.t = 0; w0.k = IS_EMAIL; w0.a = A; w0.ph = 1; p.ops.push_back(w0); } }
+            Op a0; a0.t = 0; a0.k = IS_EMAIL; a0.a = A; p.ops.push_back(a0);
+            Op b0; b0.t = 1; b0.k = IS_EMAIL; b0.a = B; p.ops.push_back(b0);
+            p.main_free = { 0, 1 };
+        } else {
         Op w0; w0.t = 0; w0.k = TLD; w0.a = A; w0.ph = 1; p.ops.push_back(w0);
         Op a0; a0.t = 0; a0.k = TLD; a0.a = A; p.ops.push_back(a0);
         Op b0; b0.t = 1; b0.k = TLD; b0.a = B; p.ops.push_back(b0);
         p.main_init = { 0, 1 }; p.main_free = { 0, 1 };
+        }
         p.policy = 0; p.has_switches = true;
         p.switches.push_back(rt::Switch{ 0, first, 0 });
         if (sched >= 1 && sched <= SMAX) p.switches.push_back(rt::Switch{ (uint64_t)sched, 1 - first, 0 });
@@ -741,7 +778,7 @@ static sj::Value stats_json() {
     j.set("ops", ST.ops); j.set("outcome_comparisons", ST.outcome_cmp); j.set("write_shared_locations", ST.write_shared);
     j.set("plans_with_exit_while_others_run", ST.exit_plans); j.set("library_exit_handlers_run", ST.exit_handlers_run);
     j.set("library_constructors", (long long)rt::library_constructors()); j.set("library_exit_handlers_now", (long long)rt::library_exit_handlers());
-    j.set("conflict_discovery", g_conf_done ? "done" : "not run"); j.set("max_labels_writing_library_statics", (long long)g_conf_labels_writing); j.set("max_static_locations_shared_by_labels", (long long)g_conf_locations); j.set("max_conflict_pairs_explored", (long long)g_conf.size());
+    j.set("conflict_discovery", g_conf_done ? "done" : "not run"); j.set("max_labels_writing_library_statics", (long long)g_conf_labels_writing); j.set("max_static_locations_shared_by_labels", (long long)g_conf_locations); j.set("max_conflict_pairs_explored", (long long)(g_conf.size() + g_conf_addr.size()));
     j.set("relay_plans", ST.relay_plans); j.set("objects_handed_between_live_workers", ST.relay_handovers);
     j.set("handoff_plans", ST.handoff_plans); j.set("calls_by_main_before_start", ST.calls_by_main_before_start); j.set("calls_by_main_after_join", ST.calls_by_main_after_join);
     j.set("max_worker_stack_bytes_used", ST.stack_used_max);
